@@ -32,7 +32,8 @@ StdWorld ==
    A4 |-> Row([n1 |-> Plain("c14"), n5 |-> Plain("c54"),
                p1 |-> Patch("b1", "q4", "bsd0"), p3 |-> Patch("b3", "w4", "zerocopy"), p4 |-> Plain("b4"), p5 |-> Patch("v53", "v54", "bsd0neg"),
                n6 |-> Plain("Br6"), lf |-> Plain("lfA4")])]
-StdFormat == [A1 |-> [ver |-> 2, shift |-> 3], A2 |-> [ver |-> 3, shift |-> 3],
+\* (archives with a BET table -- V3, V4 -- hold raw patch entries only: the driver edits one BET flag word in place)
+StdFormat == [A1 |-> [ver |-> 3, shift |-> 3], A2 |-> [ver |-> 2, shift |-> 3],
               A3 |-> [ver |-> 1, shift |-> 3], A4 |-> [ver |-> 4, shift |-> 5]]
 StdArchives == {"A1", "A2", "A3", "A4"}
 Bogus       == "AX"          \* an archive whose file does not exist
